@@ -79,6 +79,10 @@ type XferOpt struct {
 	MaxLen     int64
 	NoClose    bool // leave sessions open (caller closes)
 	OnAccepted func(idx int, c net.Conn)
+	// Unused: proxy connections the application opens and closes again without
+	// ever writing, next to the ones of the plan (same client, same underlay
+	// when multiplexing is on).
+	Unused int
 }
 
 type liveSess struct {
@@ -245,6 +249,16 @@ func runTransfer(e *Env, cm *protocol.Mux, plans []*SessPlan, opt XferOpt) ([]*S
 		}
 		lastProgress = now
 		mu.Unlock()
+	}
+	for k := 0; k < opt.Unused; k++ {
+		if uc, err := dial(cm); err == nil {
+			if k%2 == 0 {
+				uc.Close()
+			} else {
+				all.Add(1)
+				go func() { defer all.Done(); time.Sleep(30 * time.Millisecond); uc.Close() }()
+			}
+		}
 	}
 	for _, ls := range lives {
 		ls := ls
